@@ -1252,7 +1252,8 @@ class Recompiler:
         #
         def may_need_128_bits(tp):
             return (isinstance(tp, model.PrimitiveType) and
-                    tp.name == 'long double')
+                    tp.name in ('long double', 'double _Complex',
+                                '_cffi_double_complex_t'))
         #
         size_of_a = max(len(tp.args)*8, 8)
         if may_need_128_bits(tp.result):
